@@ -15,7 +15,7 @@ struct DataArray
 {
    T* data; int thesize;
    int size() const { return thesize; }
-   T& operator[](int n) { __CPROVER_assert(0 <= n && n < thesize, "DataArray index in bounds"); return data[n]; }
+   T& operator[](int n) { __CPROVER_assert(0 <= n && n < thesize, "DataArray index in bounds"); DATAARRAY_READ_INVARIANT(data[n]); return data[n]; }
    const T& operator[](int n) const { __CPROVER_assert(0 <= n && n < thesize, "DataArray index in bounds"); DATAARRAY_READ_INVARIANT(data[n]); return data[n]; }
    T* get_ptr() { return data; }
    const T* get_const_ptr() const { return data; }
@@ -47,7 +47,12 @@ struct SVectorBase
       __CPROVER_assume(0 <= i && i < bound);   /* type invariant of the LP: stored indices < dimension */
       return i;
    }
-   int& index(int n) { __CPROVER_assert(0 <= n && n < used, "SVector position in bounds"); return idxs[n]; }
+   int& index(int n)
+   {
+      __CPROVER_assert(0 <= n && n < used, "SVector position in bounds");
+      __CPROVER_assume(0 <= idxs[n] && idxs[n] < bound);   /* same type invariant on the writable view */
+      return idxs[n];
+   }
    T& value(int n) { __CPROVER_assert(0 <= n && n < used, "SVector position in bounds"); return vals[n]; }
    const T& value(int n) const { __CPROVER_assert(0 <= n && n < used, "SVector position in bounds"); return vals[n]; }
 };
